@@ -490,3 +490,425 @@ Proof.
         rewrite Hs3. rewrite (pull_loop_exact e obj Hclen) by (try assumption; lia).
         rewrite H6. f_equal. apply (remaining_start e obj (0, cl) r).
 Qed.
+
+(* ================= canonical + not complex = chain ================= *)
+Definition within (clen : Z) (c : rspec2) : Prop := 0 <= fst c /\ 0 < snd c /\ fst c + snd c <= clen.
+
+Lemma chain_of_canon clen : forall cs lo,
+  Forall (within clen) cs -> is_complex_from lo cs = false -> chain clen lo cs.
+Proof.
+  induction cs as [|[o l] r IH]; intros lo Hw Hc; cbn [chain]; [exact I|].
+  inversion Hw as [|x y Hx Hy]; subst. destruct Hx as (H1 & H2 & H3). cbn [fst snd] in *.
+  cbn [is_complex_from] in Hc. destruct (o <? lo) eqn:E; [discriminate|].
+  repeat split; try lia. apply IH; assumption.
+Qed.
+
+Lemma canon_of_chain clen : forall cs lo, chain clen lo cs -> 0 <= lo ->
+  Forall (within clen) cs /\ is_complex_from lo cs = false.
+Proof.
+  induction cs as [|[o l] r IH]; intros lo Hch Hlo; [split; [constructor|reflexivity]|].
+  cbn [chain fst snd] in Hch. destruct Hch as (H1 & H2 & H3 & H4).
+  destruct (IH _ H4 ltac:(lia)) as (Hw & Hc). split.
+  - constructor; [unfold within; cbn [fst snd]; lia|exact Hw].
+  - cbn [is_complex_from]. destruct (o <? lo) eqn:E; [lia|exact Hc].
+Qed.
+
+Lemma chain_sum_le clen : forall l lo, chain clen lo l -> lo + sum_len l <= clen \/ l = [].
+Proof.
+  induction l as [|[o n] r IH]; intros lo H; [now right|left].
+  cbn [chain fst snd] in H. destruct H as (H1 & H2 & H3 & H4). cbn [sum_len snd].
+  destruct (IH _ H4) as [Hs| ->]; [lia|cbn [sum_len]; lia].
+Qed.
+
+(* ================= replies sent without range processing ================= *)
+Lemma plain_loop_exact obj : forall chunks out acc, 0 <= out <= zlen obj -> zlen obj - out <= n_chunks chunks ->
+  plain_loop (zlen obj) obj chunks out acc = RDone (acc ++ rr_slice obj out (zlen obj - out)) false.
+Proof.
+  induction chunks as [|k ks IH]; intros out acc Ho Hn.
+  - cbn [plain_loop n_chunks] in *. destruct (zlen obj <=? out) eqn:E; [|lia].
+    replace (zlen obj - out) with 0 by lia. rewrite slice_zero, app_nil_r. reflexivity.
+  - cbn [plain_loop]. destruct (zlen obj <=? out) eqn:E.
+    + replace (zlen obj - out) with 0 by lia. rewrite slice_zero, app_nil_r. reflexivity.
+    + cbn [n_chunks] in Hn.
+      pose proof (clip_chunk_bounds k (zlen obj - out) ltac:(lia)) as Hk.
+      set (kk := clip_chunk k (zlen obj - out)) in *.
+      rewrite zlen_slice by lia. rewrite IH by lia. rewrite <- app_assoc. f_equal. f_equal.
+      replace (zlen obj - out) with (kk + (zlen obj - (out + kk))) by lia. rewrite slice_split by lia. reflexivity.
+Qed.
+
+Theorem run_plain_shape obj data0 chunks : zlen data0 <= zlen obj -> zlen obj <= n_chunks chunks ->
+  run_plain obj data0 chunks = RDone (data0 ++ rr_slice obj (zlen data0) (zlen obj - zlen data0)) false.
+Proof. intros H Hn. unfold run_plain. pose proof (zlen_nonneg data0). apply plain_loop_exact; lia. Qed.
+
+Lemma run_plain_prefix obj b chunks : 0 <= b <= zlen obj -> zlen obj <= n_chunks chunks ->
+  run_plain obj (rr_slice obj 0 b) chunks = RDone obj false.
+Proof.
+  intros Hb Hn. rewrite run_plain_shape by (try rewrite zlen_slice; lia). rewrite zlen_slice by lia.
+  f_equal. replace b with (0 + b) at 2 by lia. rewrite <- slice_split by lia.
+  replace (b + (zlen obj - b)) with (zlen obj) by lia. apply slice_whole.
+Qed.
+
+Lemma first_read_size_bounds k0 clen : 0 <= clen -> 0 <= first_read_size k0 clen <= clen.
+Proof. intros H. unfold first_read_size. lia. Qed.
+
+(* the 200 fallback is the whole representation when nothing was cut off the first buffer *)
+Theorem plain_output_full i roff :
+  roff <= 0 \/ first_read_size (i_k0 i) (zlen (i_obj i)) <= roff ->
+  zlen (i_obj i) <= n_chunks (i_chunks i) ->
+  plain_output i roff = mkOut 200 (zlen (i_obj i)) None (i_ctype i) (RDone (i_obj i) false).
+Proof.
+  intros Hr Hn. unfold plain_output. f_equal.
+  pose proof (first_read_size_bounds (i_k0 i) (zlen (i_obj i)) (zlen_nonneg _)) as Hb.
+  set (bs := first_read_size (i_k0 i) (zlen (i_obj i))) in *.
+  unfold first_buffer. destruct (0 <? roff) eqn:E.
+  - destruct Hr as [Hr|Hr]; [lia|]. destruct (bs <? roff) eqn:E2.
+    + rewrite <- (slice_zero (i_obj i) 0). apply run_plain_prefix; lia.
+    + replace (bs - roff) with 0 by lia. rewrite slice_zero. rewrite <- (slice_zero (i_obj i) 0). apply run_plain_prefix; lia.
+  - apply run_plain_prefix; lia.
+Qed.
+
+(* ... and in general it is the advanced first buffer followed by the body from where the byte count says *)
+Theorem plain_output_shape i roff :
+  0 < roff < first_read_size (i_k0 i) (zlen (i_obj i)) ->
+  zlen (i_obj i) <= n_chunks (i_chunks i) ->
+  let bs := first_read_size (i_k0 i) (zlen (i_obj i)) in
+  o_body (plain_output i roff) =
+  RDone (rr_slice (i_obj i) roff (bs - roff) ++ rr_slice (i_obj i) (bs - roff) (zlen (i_obj i) - (bs - roff))) false.
+Proof.
+  intros Hr Hn bs. unfold plain_output. cbn [o_body].
+  pose proof (first_read_size_bounds (i_k0 i) (zlen (i_obj i)) (zlen_nonneg _)) as Hb. fold bs in Hr, Hb.
+  unfold first_buffer. fold bs. destruct (0 <? roff) eqn:E; [|lia]. destruct (bs <? roff) eqn:E2; [lia|].
+  rewrite run_plain_shape by (try rewrite zlen_slice; lia). rewrite zlen_slice by lia. reflexivity.
+Qed.
+
+(* ================= lowestOffset(0) vs the first canonical offset ================= *)
+Lemma lof_zero_acc : forall raw, lowest_offset_from 0 0 raw = 0.
+Proof.
+  induction raw as [|[o l] r IH]; cbn [lowest_offset_from]; [reflexivity|].
+  unfold known_spec, unknown_pos in *. destruct (o >? -1) eqn:Eo; cbn [negb].
+  - destruct (o <? 0) eqn:E1; [lia|]. cbn [orb]. exact IH.
+  - destruct (l >? 0) eqn:E2; cbn [orb]; [reflexivity|]. destruct (l >? -1) eqn:E3; cbn [negb]; [|reflexivity].
+    assert (l = 0) by lia. subst l. cbn [Z.sub Z.opp Z.add Z.ltb Z.compare orb]. exact IH.
+Qed.
+
+Definition starts_at_zero (sp : rspec2) : Prop := known_spec (fst sp) = false \/ fst sp = 0.
+
+Lemma lof_has_zero : forall raw acc, acc = -1 \/ 0 <= acc ->
+  (exists sp, In sp raw /\ starts_at_zero sp) -> lowest_offset_from 0 acc raw = 0.
+Proof.
+  induction raw as [|[o l] r IH]; intros acc Hacc (sp & Hin & Hsp); [destruct Hin|].
+  cbn [lowest_offset_from]. unfold starts_at_zero, known_spec, unknown_pos in *.
+  destruct (o >? -1) eqn:Eo; cbn [negb].
+  - (* known offset *)
+    destruct Hin as [<-|Hin].
+    + destruct Hsp as [Hsp|Hsp]; cbn [fst] in Hsp; [rewrite Eo in Hsp; discriminate|]. subst o.
+      destruct ((0 <? acc) || negb (acc >? -1)) eqn:E; [apply lof_zero_acc|].
+      assert (acc = 0) by lia. subst acc. apply lof_zero_acc.
+    + apply IH; [|exists sp; split; assumption].
+      destruct ((o <? acc) || negb (acc >? -1)); lia.
+  - destruct (l >? 0) eqn:E2; cbn [orb]; [reflexivity|]. destruct (l >? -1) eqn:E3; cbn [negb]; [|reflexivity].
+    assert (l = 0) by lia. subst l. cbn [Z.sub Z.opp Z.add].
+    destruct ((0 <? acc) || negb (acc >? -1)) eqn:E; [apply lof_zero_acc|].
+    assert (acc = 0) by lia. subst acc. apply lof_zero_acc.
+Qed.
+
+Lemma spec_canonize_keeps_offset clen sp : known_spec (fst sp) = true ->
+  fst (fst (fst (spec_canonize clen sp))) = fst sp.
+Proof.
+  destruct sp as [o l]. cbn [fst]. intros Hk. unfold spec_canonize. rewrite Hk. cbn [negb].
+  destruct (negb (known_spec l)).
+  - destruct (rng_size_i64 (rng_intersection (0, clen) (o, clen))) as [l1 o1].
+    destruct (add64 o l1) as [e o2]. destruct (rng_size_i64 (rng_intersection (0, clen) (o, e))) as [l2 o3]. reflexivity.
+  - destruct (add64 o l) as [e o2]. destruct (rng_size_i64 (rng_intersection (0, clen) (o, e))) as [l2 o3]. reflexivity.
+Qed.
+
+Lemma canon_specs_origin clen : forall raw cs ub c, canon_specs clen raw = (cs, ub) -> In c cs ->
+  exists sp, In sp raw /\ c = fst (fst (spec_canonize clen sp)).
+Proof.
+  induction raw as [|sp r IH]; intros cs ub c H Hin; cbn [canon_specs] in H.
+  - inversion H; subst. destruct Hin.
+  - destruct (spec_canonize clen sp) as [[c0 good] o] eqn:Es. destruct (canon_specs clen r) as [cs' o'] eqn:Er.
+    inversion H; subst. destruct good.
+    + destruct Hin as [<-|Hin]; [exists sp; split; [now left|rewrite Es; reflexivity]|].
+      destruct (IH _ _ _ eq_refl Hin) as (sp' & Hin' & Hc). exists sp'. split; [now right|exact Hc].
+    + destruct (IH _ _ _ eq_refl Hin) as (sp' & Hin' & Hc). exists sp'. split; [now right|exact Hc].
+Qed.
+
+Lemma lowest_offset_zero clen raw cs ub c : canon_specs clen raw = (cs, ub) -> In c cs -> fst c = 0 ->
+  lowest_offset 0 raw = 0.
+Proof.
+  intros H Hin Hc. destruct (canon_specs_origin clen raw cs ub c H Hin) as (sp & Hsp & Heq).
+  unfold lowest_offset. apply lof_has_zero; [left; reflexivity|]. exists sp. split; [exact Hsp|].
+  unfold starts_at_zero. destruct (known_spec (fst sp)) eqn:Ek; [right|now left].
+  rewrite <- (spec_canonize_keeps_offset clen sp Ek). rewrite <- Heq. exact Hc.
+Qed.
+
+Lemma lof_nonneg : forall raw acc, acc = -1 \/ 0 <= acc -> 0 <= lowest_offset_from 0 acc raw.
+Proof.
+  induction raw as [|[o l] r IH]; intros acc Hacc; cbn [lowest_offset_from]; unfold known_spec, unknown_pos in *.
+  - destruct (acc >? -1) eqn:E; lia.
+  - destruct (o >? -1) eqn:Eo; cbn [negb].
+    + apply IH. destruct ((o <? acc) || negb (acc >? -1)); lia.
+    + destruct (l >? 0) eqn:E2; cbn [orb]; [lia|]. destruct (l >? -1) eqn:E3; cbn [negb]; [|lia].
+      apply IH. destruct ((0 - l <? acc) || negb (acc >? -1)); lia.
+Qed.
+
+(* the first buffer squid really hands over satisfies what pack_range_exact asks of it *)
+Lemma first_buffer_ok clen raw cs ub co cl r obj k0 : clen = zlen obj ->
+  canon_specs clen raw = (cs, ub) -> cs = (co, cl) :: r -> 0 <= co ->
+  first_ok obj co (first_buffer obj (lowest_offset 0 raw) (first_read_size k0 (zlen obj))).
+Proof.
+  intros Hclen Hcs Hcons Hco.
+  pose proof (first_read_size_bounds k0 (zlen obj) (zlen_nonneg _)) as Hb.
+  set (bs := first_read_size k0 (zlen obj)) in *. unfold first_ok, first_buffer.
+  destruct (0 <? lowest_offset 0 raw) eqn:E.
+  - destruct (Z.eq_dec co 0) as [Hz|Hnz]; [|right; left; lia].
+    rewrite (lowest_offset_zero clen raw cs ub (co, cl) Hcs) in E; [discriminate|rewrite Hcons; now left|exact Hz].
+  - destruct (Z.eq_dec bs 0) as [Hz|Hnz].
+    + left. rewrite Hz, slice_zero. reflexivity.
+    + right. right. exists bs. split; [lia|reflexivity].
+Qed.
+
+(* ================= buildRangeHeader: when is it a 206 ================= *)
+Theorem build_range_header_partial b raw cs :
+  build_range_header b raw = VPartial cs <->
+  ( b_have_rep b = true /\ b_status b = 200 /\ b_has_content_range b = false /\
+    0 <= b_content_length b /\ b_content_length b = b_base_content_length b /\
+    (b_is_hit b = true -> b_if_range b <> Some false) /\
+    fst (range_canonize (b_content_length b) raw) = (true, cs) /\
+    is_complex cs = false /\
+    (b_is_hit b = false -> offset_limit_exceeded cs (b_limit b) = false) ).
+Proof.
+  unfold build_range_header.
+  destruct (b_have_rep b) eqn:E1; cbn [negb]; [|split; [discriminate|intros (H & _); discriminate]].
+  destruct (b_status b =? 200) eqn:E2; cbn [negb andb].
+  2: { destruct (b_status b =? 206) eqn:E3; cbn [negb]; (split; [discriminate|intros (_ & H & _); lia]). }
+  destruct (b_status b =? 206) eqn:E3; [lia|].
+  destruct (b_has_content_range b) eqn:E4; [split; [discriminate|intros (_ & _ & H & _); discriminate]|].
+  destruct (b_content_length b <? 0) eqn:E5; [split; [discriminate|intros (_ & _ & _ & H & _); lia]|].
+  destruct (b_content_length b =? b_base_content_length b) eqn:E6; cbn [negb];
+    [|split; [discriminate|intros (_ & _ & _ & _ & H & _); lia]].
+  destruct (b_is_hit b && match b_if_range b with Some m => negb m | None => false end) eqn:E7.
+  { split; [discriminate|]. intros (_ & _ & _ & _ & _ & H & _). apply andb_prop in E7 as [Eh Ei].
+    destruct (b_if_range b) as [[|]|]; try discriminate. exfalso. now apply (H Eh). }
+  destruct (range_canonize (b_content_length b) raw) as [[ok cs'] ub] eqn:Ec. cbn [fst].
+  destruct ok; cbn [negb]; [|split; [discriminate|intros (_ & _ & _ & _ & _ & _ & H & _); discriminate]].
+  destruct (is_complex cs') eqn:E8.
+  { split; [discriminate|]. intros (_ & _ & _ & _ & _ & _ & H7 & H8 & _). inversion H7; subst. congruence. }
+  destruct (negb (b_is_hit b) && offset_limit_exceeded cs' (b_limit b)) eqn:E9.
+  { split; [discriminate|]. intros (_ & _ & _ & _ & _ & _ & H7 & _ & H9). inversion H7; subst.
+    apply andb_prop in E9 as [A B]. destruct (b_is_hit b); [discriminate|]. rewrite (H9 eq_refl) in B. discriminate. }
+  split.
+  - intros H. inversion H; subst. repeat split; try lia; try assumption.
+    all: try (intros Hh Hi; rewrite Hh, Hi in E7; discriminate).
+    all: try (intros Hh; rewrite Hh in E9; exact E9).
+  - intros (_ & _ & _ & _ & _ & _ & H7 & _). inversion H7; subst. reflexivity.
+Qed.
+
+(* ================= the whole transaction ================= *)
+Lemma fst_run_partial e obj cs data0 chunks : fst (run_partial e obj cs data0 chunks) = snd (prep_partial e cs).
+Proof.
+  unfold run_partial. destruct (prep_partial e cs) as [s0 acl].
+  destruct (if zlen data0 =? 0 then (s0, []) else send_buffer e s0 0 data0) as [s1 out0].
+  destruct (socket_state e s1) as [s2 fin]. reflexivity.
+Qed.
+
+Definition reply_env (i : rinput) (cs : list rspec2) : renv :=
+  mkEnv (1 <? Z.of_nat (length cs)) (zlen (i_obj i)) (i_ctype i) (boundary_str (i_key i)).
+
+Theorem reply_run_spec i value specs :
+  i_range i = Some value -> header_specs value = Some specs ->
+  zlen (i_obj i) <= int64_max -> zlen (i_obj i) <= n_chunks (i_chunks i) ->
+  (exists cs, canon_of (zlen (i_obj i)) specs cs /\ cs <> [] /\ chain (zlen (i_obj i)) 0 cs /\
+      reply_run i = mkOut 206 (zlen (expected_body (reply_env i cs) (i_obj i) cs))
+                          (match cs with [c] => Some (cont_range_value c (zlen (i_obj i))) | _ => None end)
+                          (match cs with [c] => i_ctype i | _ => Some (multipart_ctype (boundary_str (i_key i))) end)
+                          (RDone (expected_body (reply_env i cs) (i_obj i) cs) false))
+  \/ (exists roff, reply_run i = plain_output i roff /\ (roff = 0 \/ roff = lowest_offset 0 (map repr specs))).
+Proof.
+  intros Hrange Hspecs Hmax Hn. set (clen := zlen (i_obj i)) in *.
+  assert (Hclen : -1 <= clen <= int64_max) by (pose proof (zlen_nonneg (i_obj i)); unfold clen; lia).
+  unfold reply_run. rewrite Hrange. rewrite range_parse_spec, Hspecs. cbn [fst]. set (raw := map repr specs).
+  destruct (negb (i_hit i) && negb (negb (offset_limit_exceeded raw (i_limit i))) && (1 <? Z.of_nat (length raw))).
+  { right. exists 0. split; [reflexivity|now left]. }
+  match goal with |- context [build_range_header ?b raw] => set (bb := b) end.
+  destruct (build_range_header bb raw) as [cs|why ub] eqn:Eb.
+  2: { right. exists (lowest_offset 0 raw). split; [reflexivity|now right]. }
+  left. apply build_range_header_partial in Eb.
+  destruct Eb as (_ & _ & _ & _ & _ & _ & Hcanon & Hcomplex & _). cbn [b_content_length bb] in Hcanon.
+  destruct (header_specs_valid value specs Hspecs) as (Hvalid & _).
+  destruct (canon_specs_spec clen specs Hvalid Hclen) as (cs0 & Hcs0 & Hcanon_of).
+  fold clen raw in Hcanon. unfold range_canonize in Hcanon. fold raw in Hcs0. rewrite Hcs0 in Hcanon. cbn [fst] in Hcanon.
+  assert (cs0 = cs) by (inversion Hcanon; reflexivity). subst cs0.
+  assert (Hne : cs <> []) by (destruct cs; [inversion Hcanon|discriminate]).
+  assert (Hchain : chain clen 0 cs).
+  { apply chain_of_canon; [|exact Hcomplex]. exact (canon_of_within clen specs cs Hcanon_of). }
+  exists cs. split; [exact Hcanon_of|]. split; [exact Hne|]. split; [exact Hchain|].
+  destruct cs as [|[co cl] r]; [contradiction|].
+  fold (reply_env i ((co, cl) :: r)). set (e := reply_env i ((co, cl) :: r)).
+  assert (Hmp : e_multipart e = match r with [] => false | _ => true end).
+  { unfold e, reply_env. cbn [e_multipart length]. destruct r as [|c2 r2]; [reflexivity|].
+    cbn [length]. rewrite !Nat2Z.inj_succ. pose proof (Nat2Z.is_nonneg (length r2)). lia. }
+  assert (Hsingle : single_ok e r).
+  { intros Hm. rewrite Hmp in Hm. destruct r; [reflexivity|discriminate]. }
+  assert (Hco : 0 <= co) by (cbn [chain fst] in Hchain; lia).
+  set (data0 := first_buffer (i_obj i) (lowest_offset 0 raw) (first_read_size (i_k0 i) clen)).
+  assert (Hfirst : first_ok (i_obj i) co data0).
+  { unfold data0, clen. eapply first_buffer_ok; [reflexivity|exact Hcs0|reflexivity|exact Hco]. }
+  assert (Hsum : cl + sum_len r <= n_chunks (i_chunks i)).
+  { destruct (chain_sum_le clen _ 0 Hchain) as [Hs|Hs]; [cbn [sum_len snd] in Hs; lia|discriminate]. }
+  pose proof (run_partial_exact e (i_obj i) co cl r data0 (i_chunks i) eq_refl Hsingle Hchain Hfirst Hsum) as Hbody.
+  pose proof (fst_run_partial e (i_obj i) ((co, cl) :: r) data0 (i_chunks i)) as Hacl.
+  rewrite (declared_length e (i_obj i) co cl r Hmp Hco Hchain) in Hacl.
+  assert (Hrun : run_partial e (i_obj i) ((co, cl) :: r) data0 (i_chunks i)
+                 = (zlen (expected_body e (i_obj i) ((co, cl) :: r)), RDone (expected_body e (i_obj i) ((co, cl) :: r)) false)).
+  { rewrite (surjective_pairing (run_partial e (i_obj i) ((co, cl) :: r) data0 (i_chunks i))). rewrite Hacl, Hbody. reflexivity. }
+  change (mkEnv (1 <? Z.of_nat (length ((co, cl) :: r))) (zlen (i_obj i)) (i_ctype i) (boundary_str (i_key i))) with e.
+  change (first_buffer (i_obj i) (lowest_offset 0 raw) (first_read_size (i_k0 i) (zlen (i_obj i)))) with data0.
+  unfold rspec2 in *. rewrite Hrun.
+  change (1 <? Z.of_nat (length ((co, cl) :: r))) with (e_multipart e). rewrite Hmp.
+  destruct r; reflexivity.
+Qed.
+
+(* ================= consequences ================= *)
+Lemma reply_status i : o_status (reply_run i) = 200 \/ o_status (reply_run i) = 206.
+Proof.
+  unfold reply_run. destruct (i_range i) as [value|]; [|left; reflexivity].
+  destruct (fst (range_parse value)) as [raw|]; [|left; reflexivity].
+  destruct (negb (i_hit i) && negb (negb (offset_limit_exceeded raw (i_limit i))) && (1 <? Z.of_nat (length raw)));
+    [left; reflexivity|].
+  match goal with |- context [build_range_header ?b raw] => destruct (build_range_header b raw) end; [right|left; reflexivity].
+  match goal with |- context [run_partial ?a ?b ?c ?d ?e] => destruct (run_partial a b c d e) end. reflexivity.
+Qed.
+
+Lemma reply_no_range i : i_range i = None -> reply_run i = plain_output i 0.
+Proof. intros H. unfold reply_run. rewrite H. reflexivity. Qed.
+
+Lemma reply_invalid_range i value : i_range i = Some value -> header_specs value = None -> reply_run i = plain_output i 0.
+Proof. intros H Hs. unfold reply_run. rewrite H, range_parse_spec, Hs. reflexivity. Qed.
+
+(* no Range, or a Range that has to be ignored: the whole representation, always *)
+Theorem reply_without_usable_range i :
+  (i_range i = None \/ exists value, i_range i = Some value /\ header_specs value = None) ->
+  zlen (i_obj i) <= n_chunks (i_chunks i) ->
+  reply_run i = mkOut 200 (zlen (i_obj i)) None (i_ctype i) (RDone (i_obj i) false).
+Proof.
+  intros [H|(value & H & Hs)] Hn; [rewrite (reply_no_range i H)|rewrite (reply_invalid_range i value H Hs)];
+    apply plain_output_full; try assumption; now left.
+Qed.
+
+Lemma lowest_offset_nonneg raw : 0 <= lowest_offset 0 raw.
+Proof. apply lof_nonneg. now left. Qed.
+
+(* the fallback 200 is complete when the first body buffer was not cut *)
+Theorem reply_200_full_partial i value specs :
+  i_range i = Some value -> header_specs value = Some specs ->
+  zlen (i_obj i) <= int64_max -> zlen (i_obj i) <= n_chunks (i_chunks i) ->
+  o_status (reply_run i) = 200 ->
+  i_k0 i = 0%N \/ lowest_offset 0 (map repr specs) = 0 \/
+    first_read_size (i_k0 i) (zlen (i_obj i)) <= lowest_offset 0 (map repr specs) ->
+  reply_run i = mkOut 200 (zlen (i_obj i)) None (i_ctype i) (RDone (i_obj i) false).
+Proof.
+  intros Hr Hs Hmax Hn Hst Hcond.
+  destruct (reply_run_spec i value specs Hr Hs Hmax Hn) as [(cs & _ & _ & _ & Heq)|(roff & Heq & Hroff)].
+  - rewrite Heq in Hst. discriminate.
+  - rewrite Heq. apply plain_output_full; [|exact Hn].
+    destruct Hroff as [Hro|Hro]; rewrite Hro; [now left|].
+    pose proof (lowest_offset_nonneg (map repr specs)).
+    destruct Hcond as [Hk|[Hz|Hle]].
+    + right. unfold first_read_size. rewrite Hk. pose proof (zlen_nonneg (i_obj i)). cbn [Z.of_N]. lia.
+    + left. lia.
+    + now right.
+Qed.
+
+(* 416 is never sent; when no requested range is satisfiable the answer is 200 *)
+Theorem reply_unsatisfiable_is_200 i value specs :
+  i_range i = Some value -> header_specs value = Some specs ->
+  zlen (i_obj i) <= int64_max -> zlen (i_obj i) <= n_chunks (i_chunks i) ->
+  (forall s p, In s specs -> ~ wants (zlen (i_obj i)) s p) ->
+  o_status (reply_run i) = 200.
+Proof.
+  intros Hr Hs Hmax Hn Hnone.
+  destruct (reply_run_spec i value specs Hr Hs Hmax Hn) as [(cs & Hco & Hne & Hch & Heq)|(roff & Heq & _)].
+  - exfalso. destruct cs as [|c r]; [contradiction|].
+    cbn [chain] in Hch. destruct Hch as (H1 & H2 & H3 & _).
+    destruct (proj1 (canon_of_union _ _ _ Hco (fst c))) as (s & Hin & Hw).
+    { exists c. split; [now left|unfold in_canon; lia]. }
+    exact (Hnone s (fst c) Hin Hw).
+  - rewrite Heq. reflexivity.
+Qed.
+
+(* ================= the refutation: a disk hit whose Range is ignored late ================= *)
+(* a 10-byte representation 0..9 read from disk (the first read returns all of it), Range: bytes=5-6,2-3 *)
+Definition refute_input : rinput :=
+  mkIn (Some [98;121;116;101;115;61;53;45;54;44;50;45;51]%N) [0;1;2;3;4;5;6;7;8;9]%N None [75]%N true 0 None None 4096
+       [4096;4096;4096;4096;4096;4096;4096;4096;4096;4096]%N.
+
+Lemma refute_input_facts :
+  header_specs [98;121;116;101;115;61;53;45;54;44;50;45;51]%N = Some [RRange 5 6; RRange 2 3] /\
+  zlen (i_obj refute_input) <= n_chunks (i_chunks refute_input) /\
+  reply_run refute_input = mkOut 200 10 None None (RDone [2;3;4;5;6;7;8;9;8;9]%N false).
+Proof. vm_compute. repeat split; intros H; discriminate H. Qed.
+
+Theorem fallback_200_is_full_refuted :
+  exists i value specs, i_range i = Some value /\ header_specs value = Some specs /\
+    zlen (i_obj i) <= int64_max /\ zlen (i_obj i) <= n_chunks (i_chunks i) /\
+    o_status (reply_run i) = 200 /\ o_content_length (reply_run i) = zlen (i_obj i) /\
+    o_body (reply_run i) <> RDone (i_obj i) false.
+Proof.
+  destruct refute_input_facts as (H1 & H2 & H3).
+  exists refute_input, [98;121;116;101;115;61;53;45;54;44;50;45;51]%N, [RRange 5 6; RRange 2 3].
+  rewrite H3. repeat split; try assumption; try reflexivity.
+  - vm_compute. intros H; discriminate H.
+  - cbn [o_body i_obj refute_input]. intros H. inversion H.
+Qed.
+
+(* ================= the Content-Range text announces the slice it accompanies ================= *)
+Lemma dec_value_snoc ds d : dec_value (ds ++ [d]) = dec_value ds * 10 + (Z.of_N d - 48).
+Proof. unfold dec_value. rewrite fold_left_app. reflexivity. Qed.
+
+Lemma dec_digits_rr_S k n :
+  dec_digits_rr (S k) n = if (n <? 10)%N then [48 + n]%N else dec_digits_rr k (n / 10)%N ++ [48 + n mod 10]%N.
+Proof. reflexivity. Qed.
+
+Lemma forallb_app_rr {A} (p : A -> bool) a b : forallb p (a ++ b) = forallb p a && forallb p b.
+Proof. induction a as [|x a IH]; cbn [app forallb]; [reflexivity|]. rewrite IH. now rewrite andb_assoc. Qed.
+
+Lemma dec_digits_rr_spec : forall fuel n, (n < 10 ^ N.of_nat (S fuel))%N ->
+  dec_value (dec_digits_rr (S fuel) n) = Z.of_N n /\ forallb is_digit (dec_digits_rr (S fuel) n) = true /\
+  dec_digits_rr (S fuel) n <> [].
+Proof.
+  induction fuel as [|k IH]; intros n Hn; rewrite dec_digits_rr_S; destruct (n <? 10)%N eqn:E.
+  - repeat split; [unfold dec_value; cbn [fold_left]; lia|cbn [forallb]; unfold is_digit; lia|discriminate].
+  - change (10 ^ N.of_nat 1)%N with 10%N in Hn. lia.
+  - repeat split; [unfold dec_value; cbn [fold_left]; lia|cbn [forallb]; unfold is_digit; lia|discriminate].
+  - assert (Hk : (n / 10 < 10 ^ N.of_nat (S k))%N).
+    { rewrite (Nat2N.inj_succ (S k)), N.pow_succ_r' in Hn. apply N.div_lt_upper_bound; lia. }
+    destruct (IH _ Hk) as (Hv & Hd & Hne). repeat split.
+    + rewrite dec_value_snoc, Hv. pose proof (N.div_mod n 10). lia.
+    + rewrite forallb_app_rr, Hd. cbn [forallb]. unfold is_digit. pose proof (N.mod_lt n 10). lia.
+    + intros H. apply app_eq_nil in H as [_ H]. discriminate.
+Qed.
+
+Lemma dec_print_pos v : 0 <= v <= int64_max -> pos_value (dec_print v) = Some v.
+Proof.
+  intros Hv. unfold dec_print. destruct (v <? 0) eqn:E; [lia|].
+  assert (Hn : (Z.to_N v < 10 ^ N.of_nat 20)%N).
+  { unfold int64_max, two63 in Hv. change (10 ^ N.of_nat 20)%N with 100000000000000000000%N. lia. }
+  destruct (dec_digits_rr_spec 19 _ Hn) as (Hval & Hd & Hne).
+  unfold pos_value. destruct (dec_digits_rr 20 (Z.to_N v)) as [|c r] eqn:Ed; [contradiction|].
+  rewrite Hd, Hval. rewrite Z2N.id by lia. destruct (v <=? int64_max) eqn:E2; [reflexivity|lia].
+Qed.
+
+Definition bytes_sp : bytes := [98; 121; 116; 101; 115; 32]%N.
+
+Theorem cont_range_value_announces c clen : 0 <= fst c -> 0 < snd c -> fst c + snd c <= clen -> clen <= int64_max ->
+  exists a b l, cont_range_value c clen = bytes_sp ++ a ++ [45]%N ++ b ++ [47]%N ++ l /\
+    pos_value a = Some (fst c) /\ pos_value b = Some (fst c + snd c - 1) /\ pos_value l = Some clen.
+Proof.
+  intros H1 H2 H3 H4. unfold cont_range_value.
+  destruct (fst c =? -1) eqn:E1; [lia|]. destruct (snd c =? -1) eqn:E2; [lia|]. destruct (clen =? -1) eqn:E3; [lia|].
+  cbn [orb]. exists (dec_print (fst c)), (dec_print (fst c + snd c - 1)), (dec_print clen).
+  split; [unfold bytes_sp; now rewrite <- !app_assoc|].
+  repeat split; apply dec_print_pos; lia.
+Qed.
